@@ -1,6 +1,10 @@
 package kvql
 
-import "fmt"
+import (
+	"fmt"
+	"strconv"
+	"strings"
+)
 
 type ExpressionOptimizer struct {
 	Root   Expression
@@ -137,14 +141,14 @@ func (o *ExpressionOptimizer) tryOptimizeBinaryOpExecute(e *BinaryOpExpr) (Expre
 				case int64:
 					return &NumberExpr{Pos: leftPos, Data: fmt.Sprintf("%v", cret), Int: cret}, true
 				case float64:
-					return &FloatExpr{Pos: leftPos, Data: fmt.Sprintf("%v", cret), Float: cret}, true
+					return &FloatExpr{Pos: leftPos, Data: floatLiteralText(cret), Float: cret}, true
 				}
 			case *FloatExpr:
 				switch cret := ret.(type) {
 				case int64:
-					return &FloatExpr{Pos: leftPos, Data: fmt.Sprintf("%v", float64(cret)), Float: float64(cret)}, true
+					return &FloatExpr{Pos: leftPos, Data: floatLiteralText(float64(cret)), Float: float64(cret)}, true
 				case float64:
-					return &FloatExpr{Pos: leftPos, Data: fmt.Sprintf("%v", cret), Float: cret}, true
+					return &FloatExpr{Pos: leftPos, Data: floatLiteralText(cret), Float: cret}, true
 				}
 			}
 		}
@@ -283,7 +287,7 @@ func (o *ExpressionOptimizer) tryOptimizeFunctionCall(e *FunctionCallExpr) (Expr
 			}
 			fret, ok := ret.(float64)
 			if ok {
-				return &FloatExpr{Pos: e.GetPos(), Data: fmt.Sprintf("%v", ret), Float: fret}, true
+				return &FloatExpr{Pos: e.GetPos(), Data: floatLiteralText(fret), Float: fret}, true
 			}
 		case TBOOL:
 			if ret.(bool) {
@@ -293,4 +297,15 @@ func (o *ExpressionOptimizer) tryOptimizeFunctionCall(e *FunctionCallExpr) (Expr
 		}
 	}
 	return e, false
+}
+
+// floatLiteralText is the text of a float literal with value f, as the lexer
+// reads float literals: digits with a decimal point and no exponent (2.0
+// printed as 2 would read back as an integer, 1e+21 as three tokens)
+func floatLiteralText(f float64) string {
+	text := strconv.FormatFloat(f, 'f', -1, 64)
+	if !strings.Contains(text, ".") {
+		text += ".0"
+	}
+	return text
 }
